@@ -63,63 +63,55 @@ end SE
 
 /-! ### specification rules: the partial derivatives of the scalar functions of `Poly.app` -/
 
-open SE in
-/-- `specRule f n i` = ∂/∂vᵢ f(v₀,…,v_{n-1}) where it exists (away from the kinks of abs, sign, min, max,
-floor and the comparisons, and inside the domain of `f`).  The *forms* mirror the ones the code
-produces (so that correct derivative trees have the same normal form); their *truth* is
-`specRules_sound` in `Props/C04.lean`. -/
+/-- The specification rule table: `⟨f, n, i, f(v₀,…), ∂f/∂vᵢ⟩` for every scalar function that can occur as an atom
+of the carrier (`Poly.app`), where the derivative exists (away from the kinks of abs, sign, min, max, floor and the
+comparisons, and inside the domain of `f`).  The *forms* mirror the ones the code produces (so that correct
+derivative trees have the same normal form); their *truth* is `specRules_sound` in `Props/C04.lean`. -/
+def specRules : List Entry := [
+  ⟨"sin", 1, 0, (.app1 "sin" (.var 0)), (.app1 "cos" (.var 0))⟩,
+  ⟨"cos", 1, 0, (.app1 "cos" (.var 0)), (.mul ((.app1 "sin" (.var 0))) (.const (-1) 1))⟩,
+  ⟨"tan", 1, 0, (.app1 "tan" (.var 0)), (.pow ((.app1 "cos" (.var 0))) (.const (-2) 1))⟩,
+  ⟨"arcsin", 1, 0, (.app1 "arcsin" (.var 0)), (.pow ((.pow ((.add (.const (1) 1) ((.mul ((.pow (.var 0) (.const (2) 1))) (.const (-1) 1))))) (.const (1) 2))) (.const (-1) 1))⟩,
+  ⟨"arccos", 1, 0, (.app1 "arccos" (.var 0)), (.mul ((.pow ((.pow ((.add (.const (1) 1) ((.mul ((.pow (.var 0) (.const (2) 1))) (.const (-1) 1))))) (.const (1) 2))) (.const (-1) 1))) (.const (-1) 1))⟩,
+  ⟨"arctan", 1, 0, (.app1 "arctan" (.var 0)), (.pow ((.add (.const (1) 1) ((.pow (.var 0) (.const (2) 1))))) (.const (-1) 1))⟩,
+  ⟨"exp", 1, 0, (.app1 "exp" (.var 0)), (.app1 "exp" (.var 0))⟩,
+  ⟨"log", 1, 0, (.app1 "log" (.var 0)), (.pow (.var 0) (.const (-1) 1))⟩,
+  ⟨"sinh", 1, 0, (.app1 "sinh" (.var 0)), (.app1 "cosh" (.var 0))⟩,
+  ⟨"cosh", 1, 0, (.app1 "cosh" (.var 0)), (.app1 "sinh" (.var 0))⟩,
+  ⟨"tanh", 1, 0, (.app1 "tanh" (.var 0)), (.add (.const (1) 1) ((.mul ((.pow ((.app1 "tanh" (.var 0))) (.const (2) 1))) (.const (-1) 1))))⟩,
+  ⟨"arctanh", 1, 0, (.app1 "arctanh" (.var 0)), (.pow ((.add (.const (1) 1) ((.mul ((.pow (.var 0) (.const (2) 1))) (.const (-1) 1))))) (.const (-1) 1))⟩,
+  ⟨"arctan2", 2, 0, (.app2 "arctan2" (.var 0) (.var 1)), (.mul (.var 1) ((.pow ((.add ((.pow (.var 0) (.const (2) 1))) ((.pow (.var 1) (.const (2) 1))))) (.const (-1) 1))))⟩,
+  ⟨"arctan2", 2, 1, (.app2 "arctan2" (.var 0) (.var 1)), (.mul ((.mul (.var 0) (.const (-1) 1))) ((.pow ((.add ((.pow (.var 0) (.const (2) 1))) ((.pow (.var 1) (.const (2) 1))))) (.const (-1) 1))))⟩,
+  ⟨"inv", 1, 0, (.app1 "inv" (.var 0)), (.mul ((.pow ((.app1 "inv" (.var 0))) (.const (2) 1))) (.const (-1) 1))⟩,
+  ⟨"pow", 2, 0, (.pow (.var 0) (.var 1)), (.mul (.var 1) ((.pow (.var 0) ((.add (.var 1) (.const (-1) 1))))))⟩,
+  ⟨"pow", 2, 1, (.pow (.var 0) (.var 1)), (.mul ((.app1 "log" (.var 0))) ((.pow (.var 0) (.var 1))))⟩,
+  ⟨"abs", 1, 0, (.app1 "abs" (.var 0)), (.app1 "sign" (.var 0))⟩,
+  ⟨"sign", 1, 0, (.app1 "sign" (.var 0)), .const (0) 1⟩,
+  ⟨"min", 2, 0, (.app2 "min" (.var 0) (.var 1)), (.add (.const (1) 2) ((.mul ((.mul ((.app1 "sign" ((.add (.var 0) ((.mul (.var 1) (.const (-1) 1))))))) (.const (1) 2))) (.const (-1) 1))))⟩,
+  ⟨"min", 2, 1, (.app2 "min" (.var 0) (.var 1)), (.add (.const (1) 2) ((.mul ((.app1 "sign" ((.add (.var 0) ((.mul (.var 1) (.const (-1) 1))))))) (.const (1) 2))))⟩,
+  ⟨"max", 2, 0, (.app2 "max" (.var 0) (.var 1)), (.add (.const (1) 2) ((.mul ((.app1 "sign" ((.add (.var 0) ((.mul (.var 1) (.const (-1) 1))))))) (.const (1) 2))))⟩,
+  ⟨"max", 2, 1, (.app2 "max" (.var 0) (.var 1)), (.add (.const (1) 2) ((.mul ((.mul ((.app1 "sign" ((.add (.var 0) ((.mul (.var 1) (.const (-1) 1))))))) (.const (1) 2))) (.const (-1) 1))))⟩,
+  ⟨"floor", 1, 0, (.app1 "floor" (.var 0)), .const (0) 1⟩,
+  ⟨"not", 1, 0, (.app1 "not" (.var 0)), .const (0) 1⟩,
+  ⟨"less", 2, 0, (.app2 "less" (.var 0) (.var 1)), .const (0) 1⟩,
+  ⟨"less", 2, 1, (.app2 "less" (.var 0) (.var 1)), .const (0) 1⟩,
+  ⟨"greater", 2, 0, (.app2 "greater" (.var 0) (.var 1)), .const (0) 1⟩,
+  ⟨"greater", 2, 1, (.app2 "greater" (.var 0) (.var 1)), .const (0) 1⟩,
+  ⟨"equal", 2, 0, (.app2 "equal" (.var 0) (.var 1)), .const (0) 1⟩,
+  ⟨"equal", 2, 1, (.app2 "equal" (.var 0) (.var 1)), .const (0) 1⟩,
+  ⟨"fdiv", 2, 0, (.app2 "fdiv" (.var 0) (.var 1)), .const (0) 1⟩,
+  ⟨"fdiv", 2, 1, (.app2 "fdiv" (.var 0) (.var 1)), .const (0) 1⟩,
+  ⟨"fmod", 2, 0, (.app2 "fmod" (.var 0) (.var 1)), .const (1) 1⟩,
+  ⟨"fmod", 2, 1, (.app2 "fmod" (.var 0) (.var 1)), (.mul ((.app2 "fdiv" (.var 0) (.var 1))) (.const (-1) 1))⟩
+]
+
+/-- `specRule f n i` = ∂/∂vᵢ f(v₀,…,v_{n-1}); besides the table, the derivatives of the normalised sinc:
+`sinc{k}' = sinc{k+1}` (not covered by a theorem) -/
 def specRule (f : String) (arity pos : Nat) : Option SE :=
-  let x := var 0; let y := var 1
-  let c (n : Int) := const n 1
-  let sq (a : SE) := pow a (c 2)
-  match f, arity, pos with
-  | "sin", 1, 0 => some (app1 "cos" x)
-  | "cos", 1, 0 => some (mul (app1 "sin" x) (c (-1)))
-  | "tan", 1, 0 => some (pow (app1 "cos" x) (c (-2)))
-  | "arcsin", 1, 0 => some (pow (pow (add (c 1) (mul (sq x) (c (-1)))) (const 1 2)) (c (-1)))
-  | "arccos", 1, 0 => some (mul (pow (pow (add (c 1) (mul (sq x) (c (-1)))) (const 1 2)) (c (-1))) (c (-1)))
-  | "arctan", 1, 0 => some (pow (add (c 1) (sq x)) (c (-1)))
-  | "exp", 1, 0 => some (app1 "exp" x)
-  | "log", 1, 0 => some (pow x (c (-1)))
-  | "sinh", 1, 0 => some (app1 "cosh" x)
-  | "cosh", 1, 0 => some (app1 "sinh" x)
-  | "tanh", 1, 0 => some (add (c 1) (mul (sq (app1 "tanh" x)) (c (-1))))
-  | "arctanh", 1, 0 => some (pow (add (c 1) (mul (sq x) (c (-1)))) (c (-1)))
-  | "arctan2", 2, 0 => some (mul y (pow (add (sq x) (sq y)) (c (-1))))
-  | "arctan2", 2, 1 => some (mul (mul x (c (-1))) (pow (add (sq x) (sq y)) (c (-1))))
-  | "inv", 1, 0 => some (mul (sq (app1 "inv" x)) (c (-1)))
-  | "pow", 2, 0 => some (mul y (pow x (add y (c (-1)))))
-  | "pow", 2, 1 => some (mul (app1 "log" x) (pow x y))
-  | "abs", 1, 0 => some (app1 "sign" x)
-  | "sign", 1, 0 => some (c 0)
-  | "min", 2, 0 => some (add (const 1 2) (mul (mul (app1 "sign" (add x (mul y (c (-1))))) (const 1 2)) (c (-1))))
-  | "min", 2, 1 => some (add (const 1 2) (mul (app1 "sign" (add x (mul y (c (-1))))) (const 1 2)))
-  | "max", 2, 0 => some (add (const 1 2) (mul (app1 "sign" (add x (mul y (c (-1))))) (const 1 2)))
-  | "max", 2, 1 => some (add (const 1 2) (mul (mul (app1 "sign" (add x (mul y (c (-1))))) (const 1 2)) (c (-1))))
-  | "floor", 1, 0 => some (c 0)
-  | "not", 1, 0 => some (c 0)
-  | "less", 2, _ => some (c 0)
-  | "greater", 2, _ => some (c 0)
-  | "equal", 2, _ => some (c 0)
-  | "fdiv", 2, _ => some (c 0)
-  | "fmod", 2, 0 => some (c 1)
-  | "fmod", 2, 1 => some (mul (app2 "fdiv" x y) (c (-1)))
-  | _, 1, 0 =>
-    -- derivatives of the normalised sinc: sinc{k}' = sinc{k+1}
-    if f.startsWith "sinc" then (f.drop 4).toNat?.map fun k => app1 s!"sinc{k+1}" x else none
-  | _, _, _ => none
-
-/-- the finite part of the rule table as data (what `specRules_sound` ranges over) -/
-def specNames : List (String × Nat) :=
-  [("sin", 1), ("cos", 1), ("tan", 1), ("arcsin", 1), ("arccos", 1), ("arctan", 1), ("exp", 1), ("log", 1), ("sinh", 1), ("cosh", 1),
-   ("tanh", 1), ("arctanh", 1), ("arctan2", 2), ("inv", 1), ("pow", 2), ("abs", 1), ("sign", 1), ("min", 2), ("max", 2), ("floor", 1),
-   ("not", 1), ("less", 2), ("greater", 2), ("equal", 2), ("fdiv", 2), ("fmod", 2)]
-
-def fnOf (f : String) (arity : Nat) : SE :=
-  if f == "pow" then .pow (.var 0) (.var 1) else if arity == 1 then .app1 f (.var 0) else .app2 f (.var 0) (.var 1)
-
-def specRules : List Entry :=
-  specNames.flatMap fun (f, n) => (List.range n).filterMap fun i => (specRule f n i).map fun d => ⟨f, n, i, fnOf f n, d⟩
+  match specRules.find? fun e => e.name == f && e.arity == arity && e.pos == pos with
+  | some e => some e.deriv
+  | none =>
+    if arity == 1 && pos == 0 && f.startsWith "sinc" then (f.drop 4).toNat?.map fun k => .app1 s!"sinc{k+1}" (.var 0) else none
 
 /-! ### parsing canonical keys back into polynomials -/
 
@@ -285,12 +277,15 @@ def isKink (f : String) (args : List Rat) : Bool :=
   | "floor", [x] => x.den == 1
   | "fdiv", [x, y] | "fmod", [x, y] => y != 0 && (x / y).den == 1
   | "pow", [x, y] => x == 0 && !(y.den == 1 && y.num ≥ 0)
+  | "arctan2", [y, x] => y == 0 && x ≤ 0
   | _, _ => false
 
 def kinkFunctions : List String := ["abs", "sign", "min", "max", "less", "greater", "equal", "floor", "fdiv", "fmod"]
 
-/-- value of `p` when the variable atoms listed in `pt` are given rational values (other atoms stay) -/
-def evalAt : Nat → List (String × Rat) → Poly → Except PointErr Poly
+/-- value of `p` when the variable atoms listed in `pt` are given rational values (other atoms stay).
+`strict`: a kink function whose arguments do not become constants is an error (the point may be a kink);
+non-strict: it stays an atom (used when the remaining arguments are symbolic: "for all values away from kinks"). -/
+def evalAt (strict : Bool) : Nat → List (String × Rat) → Poly → Except PointErr Poly
   | 0, _, _ => .error (.unknown "fuel")
   | fuel + 1, pt, p => do
     let atoms := atomsOf p
@@ -304,11 +299,11 @@ def evalAt : Nat → List (String × Rat) → Poly → Except PointErr Poly
         | none => throw (.unknown s!"atom {a}")
         | some (f, ks) =>
           let qs ← ks.mapM fun k => match parseKey k with
-            | some q => evalAt fuel pt q
+            | some q => evalAt strict fuel pt q
             | none => throw (.unknown s!"key {k}")
           match qs.mapM Poly.toRat? with
           | some rs => if isKink f rs then throw (.kink f)
-          | none => if kinkFunctions.contains f then throw (.unknown s!"{f} of a non-constant")
+          | none => if strict && kinkFunctions.contains f then throw (.unknown s!"{f} of a non-constant")
           match Poly.app f qs with
           | some v => pure (a, v)
           | none => throw (.undefined f)
